@@ -49,11 +49,19 @@ fcppt::container::bitfield::proxy<StoredType>::proxy(proxy &&) noexcept = defaul
 
 template <typename StoredType>
 fcppt::container::bitfield::proxy<StoredType> &
-fcppt::container::bitfield::proxy<StoredType>::operator=(proxy const &) = default;
+fcppt::container::bitfield::proxy<StoredType>::operator=( // NOLINT(bugprone-unhandled-self-assignment,cert-oop54-cpp)
+    proxy const &_other)
+{
+  // Assigning a proxy assigns the referenced bit (like std::vector<bool>::reference), it does not rebind.
+  return *this = static_cast<fcppt::container::bitfield::value_type>(_other);
+}
 
 template <typename StoredType>
 fcppt::container::bitfield::proxy<StoredType> &
-fcppt::container::bitfield::proxy<StoredType>::operator=(proxy &&) noexcept = default;
+fcppt::container::bitfield::proxy<StoredType>::operator=(proxy &&_other) noexcept
+{
+  return *this = static_cast<fcppt::container::bitfield::value_type>(_other);
+}
 
 namespace fcppt::container::bitfield
 {
